@@ -171,11 +171,37 @@ def race_reports():
     return reps
 
 
-def run_go(lines, env_extra=None, race=False, timeout=900, nproc=None):
+def run_go(lines, env_extra=None, race=False, timeout=900, nproc=None, confirm=6):
+    """Run case lines on the Go harness.  A case that timed out inside the harness (3 s per case) or was lost in a crashed
+    process is re-run alone with a 30 s limit before it is believed: on a loaded machine a slow case is not a hang."""
     env = dict(os.environ)
     if env_extra:
         env.update(env_extra)
-    return _run_chunks(HARNESS_BIN + ('-race' if race else ''), lines, env=env, timeout=timeout, nproc=nproc)
+    binary = HARNESS_BIN + ('-race' if race else '')
+    res = _run_chunks(binary, lines, env=env, timeout=timeout, nproc=nproc)
+    stderr_first = list(LAST_STDERR)
+    cid = lambda l: l.split(' ', 1)[0]
+    # a panic in a library goroutine kills the process and loses the rest of its chunk: give the lost cases fresh processes
+    for _ in range(4):
+        crashed = [l for l in lines if res.get(cid(l), '').startswith('crash')]
+        if not crashed:
+            break
+        if len(crashed) <= 48:
+            from concurrent.futures import ThreadPoolExecutor
+            with ThreadPoolExecutor(max_workers=NPROC) as ex:
+                for r in ex.map(lambda l: _run_chunks(binary, [l], env=env, timeout=180, nproc=1), crashed):
+                    res.update(r)
+            break
+        res.update(_run_chunks(binary, crashed, env=env, timeout=timeout, nproc=nproc))
+        stderr_first += list(LAST_STDERR)
+    redo = [l for l in lines if res.get(cid(l), '').startswith('timeout')][:confirm]
+    if redo:
+        env2 = dict(env, IVH_TIMEOUT_MS='30000')
+        for l in redo:
+            res.update(_run_chunks(binary, [l], env=env2, timeout=180, nproc=1))
+            stderr_first += list(LAST_STDERR)
+    LAST_STDERR[:] = stderr_first
+    return res
 
 
 def run_model(lines, timeout=2400):
